@@ -410,15 +410,21 @@ Definition creq_test (r : creq) (s : cstate) : bool :=
    whether its store has been executed *)
 Record xreq := mkReq { rq_thread : nat; rq_kind : creq; rq_passed : bool; rq_stored : bool }.
 
-Record xconn := mkX { xbase : conn; xreqs : list xreq }.
+(* [xtimers]: a forceCloseWithDelay() called on a foreign thread hands TimerQueue::addTimerInLoop to the
+   loop's functor queue (runAfter -> addTimer -> runInLoop); the timer is armed only when the loop
+   runs that functor.  [functor] has no constructor for it, so the x-machine keeps, for each such
+   functor in the queue, the number of functors of [pending] that are AHEAD of it (non-decreasing
+   list, oldest first): the real queue is [pending] with these functors interleaved. *)
+Record xconn := mkX { xbase : conn; xreqs : list xreq; xtimers : list nat }.
 
-Definition xinit (mark : N) (wc hw : bool) : xconn := mkX (init mark wc hw) [].
+Definition xinit (mark : N) (wc hw : bool) : xconn := mkX (init mark wc hw) [] [].
 
 Inductive xop :=
 | Base (o : op)
 | XCheck (t : nat) (r : creq)    (* the load of state_ and the comparison *)
 | XSet (t : nat)                 (* setState(kDisconnecting), if the test had passed *)
-| XEnq (t : nat).                (* queueInLoop / runInLoop / runAfter, if the test had passed; the call returns *)
+| XEnq (t : nat)                 (* queueInLoop / runInLoop / runAfter, if the test had passed; the call returns *)
+| XRunTimer.                     (* the loop runs the oldest functor of the real queue, and it is an addTimerInLoop *)
 
 Fixpoint find_req (t : nat) (l : list xreq) : option xreq :=
   match l with
@@ -443,22 +449,39 @@ Definition rereg (c c' : conn) : conn :=
        then set_registered c' true
        else c'.
 
-(* the hand-off of a request whose test passed *)
+(* the hand-off of a request whose test passed, on the base state; for RForceCloseDelay this is
+   the arming of the timer (executed at once on the loop thread, by the queued addTimerInLoop
+   functor for a foreign call) *)
 Definition creq_enqueue (r : creq) (c : conn) : conn :=
   match r with
   | RShutdown => set_pending c (pending c ++ [FShutdown])          (* runInLoop(shutdownInLoop), not in the loop thread *)
   | RForceClose => set_pending c (pending c ++ [FForceClose])      (* queueInLoop(forceCloseInLoop), strong reference *)
-  | RForceCloseDelay =>                                            (* runAfter(makeWeakCallback(.., forceClose)) *)
+  | RForceCloseDelay =>                                            (* timers_.insert: makeWeakCallback(.., forceClose) *)
       mkConn (st c) (outb c) (inb c) (writing c) (rd_chan c) (rd_flag c) (registered c) (hwm c) (has_wc c)
              (has_hwm c) (wire c) (fin c) (pending c) (chk c) (S (delayed c)) (accepted c) (consumed c)
              (delivered c) (enq c) (ran c) (ups c) (downs c)
   end.
 
+(* the oldest functor of the real queue is an addTimerInLoop *)
+Definition timer_due (l : list nat) : bool := match l with 0 :: _ => true | _ => false end.
+
+Definition is_delay (r : creq) : bool := match r with RForceCloseDelay => true | _ => false end.
+
+(* the marks after a Base step: a RunOne that ran a functor of [pending] brings every queued
+   addTimerInLoop one place forward *)
+Definition xtimers_after (c : conn) (o : op) (l : list nat) : list nat :=
+  match o with
+  | RunOne _ => match pending c with [] => l | _ :: _ => map pred l end
+  | _ => l
+  end.
+
 Definition xstep (x : xconn) (o : xop) : res (xconn * list event) :=
   match o with
   | Base b =>
+      if (match b with RunOne _ => timer_due (xtimers x) | _ => false end) then Rejected
+      else
       match step (xbase x) b with
-      | Ok (c', e) => Ok (mkX (rereg (xbase x) c') (xreqs x), e)
+      | Ok (c', e) => Ok (mkX (rereg (xbase x) c') (xreqs x) (xtimers_after (xbase x) b (xtimers x)), e)
       | Rejected => Rejected
       | Fault => Fault
       end
@@ -466,24 +489,30 @@ Definition xstep (x : xconn) (o : xop) : res (xconn * list event) :=
       if cstate_eqb (st (xbase x)) Connecting then Rejected      (* no user holds the pointer before UP *)
       else match find_req t (xreqs x) with
            | Some _ => Rejected                                  (* one call at a time per thread *)
-           | None => Ok (mkX (xbase x) (mkReq t r (creq_test r (st (xbase x))) false :: xreqs x), [])
+           | None => Ok (mkX (xbase x) (mkReq t r (creq_test r (st (xbase x))) false :: xreqs x) (xtimers x), [])
            end
   | XSet t =>
       match find_req t (xreqs x) with
       | Some q =>
           if rq_stored q then Rejected
           else Ok (mkX (if rq_passed q then set_st (xbase x) Disconnecting else xbase x)
-                       (mkReq t (rq_kind q) (rq_passed q) true :: drop_req t (xreqs x)), [])
+                       (mkReq t (rq_kind q) (rq_passed q) true :: drop_req t (xreqs x)) (xtimers x), [])
       | None => Rejected
       end
   | XEnq t =>
       match find_req t (xreqs x) with
       | Some q =>
           if rq_stored q
-          then Ok (mkX (if rq_passed q then creq_enqueue (rq_kind q) (xbase x) else xbase x)
-                       (drop_req t (xreqs x)), [])
+          then Ok (mkX (if rq_passed q && negb (is_delay (rq_kind q)) then creq_enqueue (rq_kind q) (xbase x) else xbase x)
+                       (drop_req t (xreqs x))
+                       (if rq_passed q && is_delay (rq_kind q) then xtimers x ++ [length (pending (xbase x))] else xtimers x), [])
           else Rejected
       | None => Rejected
+      end
+  | XRunTimer =>
+      match xtimers x with
+      | 0 :: r => Ok (mkX (creq_enqueue RForceCloseDelay (xbase x)) (xreqs x) r, [])
+      | _ => Rejected
       end
   end.
 
